@@ -168,6 +168,13 @@ static inline std::vector<Bytes> wide_items(bool big) {
     Bytes c = B({(uint8_t)(mt == 2 ? 0x5f : 0x7f)}); c.insert(c.end(), s.begin(), s.end()); c.insert(c.end(), s.begin(), s.end()); c.push_back(0xff); v.push_back(c);
     Bytes t = B({0xc1}); t.insert(t.end(), s.begin(), s.end()); v.push_back(t);
   }
+  if (big) {   // counts at the 16-bit boundary with the members really present (need an allocator cap above 1 MiB)
+    for (size_t n : {(size_t)65535, (size_t)65536, (size_t)70000}) {
+      Bytes a; put_counted(a, 4, n); a.insert(a.end(), n, (uint8_t)0x01); v.push_back(a);
+      Bytes m; put_counted(m, 5, n); for (size_t i = 0; i < n; i++) { m.push_back((uint8_t)(i % 24)); m.push_back(0xf4); } v.push_back(m);
+    }
+    Bytes ia = B({0x9f}); ia.insert(ia.end(), 66000, (uint8_t)0x02); ia.push_back(0xff); v.push_back(ia);
+  }
   // nested wide: 30 arrays of 30, a map whose values are 24-element arrays
   { Bytes a; put_counted(a, 4, 30); for (int i = 0; i < 30; i++) { put_counted(a, 4, 30); for (int j = 0; j < 30; j++) a.push_back((uint8_t)j % 24); } v.push_back(a); }
   { Bytes m; put_counted(m, 5, 24); for (int i = 0; i < 24; i++) { m.push_back((uint8_t)i); put_counted(m, 4, 24); for (int j = 0; j < 24; j++) m.push_back(0xf5); } v.push_back(m); }
